@@ -50,11 +50,6 @@ try:
                     break
             results.append((m["name"] + " @" + chk, verdict + ("  " + first if first else "")))
             print("%-60s %s %s" % (m["name"] + " @" + chk, verdict, first))
-            # replays of mutation runs are not evidence: remove them
-            rd = os.path.join(ROOT, "replays", chk)
-            for f in os.listdir(rd) if os.path.isdir(rd) else []:
-                if ".quick.seed" in f:
-                    os.remove(os.path.join(rd, f))
 finally:
     subprocess.call(["git", "-C", "/repo", "worktree", "remove", "--force", wt])
     alt = os.path.join(ROOT, ".build", "alt-" + hashlib.sha1(os.path.realpath(wt).encode()).hexdigest()[:10])
